@@ -1,6 +1,6 @@
 (** C03 - nothing outside the loaded torrents' export subtrees is ever touched.  Statements only. *)
 From TB Require Import Base Decimal BencodeModel TorrentModel TorrentProofs PathModel FsModel SolverModel FinderModel RunModel
-                       SolverProofs RunProofs FsProofs FaultProofs PreludeProofs TableProofs Generated GeneratedObligations SystemModel SystemProofs GlueProofs RunExample.
+                       SolverProofs RunProofs FsProofs FaultProofs PreludeProofs TableProofs Generated GeneratedObligations SystemModel SystemProofs GlueProofs RunExample PropertyLemmas.
 Local Open Scope N_scope.
 
 (** Every mutating operation of a piece evaluation names the export path of one of the piece's
@@ -16,7 +16,7 @@ Proof. exact (table_target_confined export ts id e). Qed.
 (** A loadable torrent only declares plain names: the name and every path component are non-empty,
     not '.' or '..', and contain no '/', so appending them cannot leave the subtree. *)
 Theorem C03_loaded_name_plain d ih t : TorrentSpec.spec_info d ih = Some t -> is_plain (t_name t) = true.
-Proof. intros Hs. apply spec_info_fields in Hs. tauto. Qed.
+Proof. exact (loaded_name_plain d ih t). Qed.
 
 (** Open modes (re-extracted from the source on every run): candidates and index probes are
     read-only; only the writer (targets) and the resize second pass (targets) open for writing,
@@ -36,7 +36,7 @@ Proof. exact (pass2_ops_shape ans mutok es k o). Qed.
 (** Inodes no operation names keep their content (frame). *)
 Theorem C03_unnamed_inodes_unchanged f o f' ok j : apply_op f o = (f', ok) ->
   fs_lookup f (op_path o) <> Some (NFile j) -> fs_content f' j = fs_content f j.
-Proof. intros Ha Hn. destruct (apply_op_content f o f' ok j Ha) as [He|[Hl _]]; [exact He|contradiction]. Qed.
+Proof. exact (unnamed_inodes_unchanged f o f' ok j). Qed.
 
 (** WHOLE RUN, every reachable state of the scanning phase (any interleaving, faults, crash point):
     no path is removed, renamed or retyped; an inode that is not the export image of a non-padding
